@@ -52,6 +52,11 @@ def plan(tier, seed):
                     scs.append(dict(cell=ci, pat=pn, subpose=4, place=P(0.97, 0.03, 0.97), pair=pr, replace_all=0, atol=0.05, fraction=1.0, noise=0, frame=[9000.0, 7000.0, -8000.0]))
     scs += [dict(scale='large', variant=v, atol=0.05, fraction=1.0, replace_all=0) for v in (0, 1)]
     scs += [dict(scale='sheet', variant=v, height=0.5, atol=0.2, fraction=1.0, replace_all=ra) for v in (0, 1) for ra in (0, 1)]
+    for ci in (0, 2, 4):
+        for pn in ['CN', 'CNO']:
+            for pr in [i for i, p_ in enumerate(pairs(pn)) if p_[0] in INSERTING][:4]:
+                for rc in (1, 2):
+                    scs.append(dict(cell=ci, pat=pn, subpose=4, place=P(0.97, 0.03, 0.97), pair=pr, replace_all=0, atol=0.05, fraction=1.0, noise=0, rcell=rc))
     scs += replace_history_scenarios()
     return dict(scenarios=scs, exhaustive=True, chunk=20,
                 menus=dict(cells=[c[0] for c in G.CELLS], patterns=PATS, pairs=INSERTING, fractions=[1.0, 0.5, 1.0 / 3], replace_all=[False, True], joint_motions=3 if q else 6, copies=[1, 2, 3]),
